@@ -46,6 +46,14 @@ claim('C06', 'label-set region algebra over provenance terms (isin / mask / conc
       'of the list; the axis sorted under sort=True is a fresh deep copy and is sorted ascending. Order of the union for mixed kinds and fill values are not decided.',
       'Assumes np.isin / np.union1d / np.concatenate documented semantics.', 'DESIGN.md §3 C06')
 
+claim('C07', 'provenance-term coherence rules over reindex_axis / take_axis / reindex_like (one position vector, one mask, one axis token; index-kind typing; loop-carried accumulation)',
+      'Decides structural clauses of C07: positions are located for the new labels in the labels of the reindexed axis; the same positions feed the positional take '
+      'and the mismatch mask; the same mask and axis feed the fill (inplace on the fresh result, indexing=position, cast=True) and the relabelling through '
+      'Axis.__setitem__; raise_error raises IndexError before any fill, fill happens only when method is None, side = method or left, defaults as stated; '
+      'take_axis takes values and labels along one resolution; reindex_like accumulates over the shared dimensions with keywords forwarded. '
+      'Slice-by-slice equality and searchsorted neighbour semantics are not decided.',
+      'Assumes ndarray.take semantics and the locate_many contract checked under C01-R4.', 'DESIGN.md §3 C07')
+
 UNDER_CONSTRUCTION = 'checker under construction in this session (claimed in DESIGN.md, not yet registered)'
 for pid in ['C01', 'C03', 'C04', 'C05', 'C06', 'C07', 'C08', 'C09', 'C10', 'C11', 'C12', 'C13', 'C14', 'C15', 'C16',
             'C17', 'C18', 'C19']:
